@@ -286,12 +286,12 @@ class Prop:
         built = self.build_pair(desc)
         if built is None:
             # description violates sibling uniqueness (possible after shrinking / out-of-domain labelling): trivial case
-            return Case(desc=desc, coq_input="([], [], [])", impl_obs=[[], [], []], nontrivial=False, key=H.digest(desc))
+            return Case(desc=desc, coq_input="([], [], [])", impl_obs=[[], [], [], True], nontrivial=False, key=H.digest(desc))
         U, t0, t1, base = built
         # node identities local to the case (allocation index minus the index at the start of the case): unary nat in Coq
         in0, in1 = coq_forest(t0._root, U, base), coq_forest(t1._root, U, base)
         before = (sx_forest(t0._root, U, base), sx_forest(t1._root, U, base))
-        outside = bool(desc.get("outside"))
+        outside = not in_domain(t0._root._children or [], t1._root._children or [])
         cfgs = desc.get("configs") or CONFIGS
         obs_runs = []
         coq_cfgs = []
@@ -329,7 +329,7 @@ class Prop:
                 ambiguous = ambiguous or st["ambiguous"]
                 if f:
                     fails.append(f"{f} [ordered={ordered} reduce={reduce}]")
-        obs = [obs_runs, before[0], before[1]]
+        obs = [obs_runs, before[0], before[1], not outside]
         # the model is compared against the inputs as observed AFTER the calls
         obs[1], obs[2] = sx_forest(t0._root, U, base), sx_forest(t1._root, U, base)
         coq_input = f"({in0}, {in1}, {H.coq_list(coq_cfgs)})"
@@ -371,6 +371,24 @@ def enc_meta(meta):
 def obs_info(node, U):
     a = U.info(node._data)
     return [a["obj"], H.sx_did(node._data_id), H.sx_kind(getattr(node, "kind", None)), enc_meta(node._meta)]
+
+
+def in_domain(ch0, ch1):
+    """the domain of the theorems (DiffProofs.dom), computed from the real objects: no two siblings with == data on either
+    side, == of data coincides with equality of data_ids between the two child lists, recursively for the == pairs"""
+    for ch in (ch0, ch1):
+        for i, a in enumerate(ch):
+            for b in ch[i + 1:]:
+                if a._data == b._data:
+                    return False
+    for c0 in ch0:
+        for c1 in ch1:
+            eq = bool(c0._data == c1._data)
+            if eq != (c0._data_id == c1._data_id):
+                return False
+            if eq and not in_domain(c0._children or [], c1._children or []):
+                return False
+    return True
 
 
 def obs_forest(root, U):
